@@ -64,6 +64,8 @@ class Runner:
         a = tr.get_args()
         if p["n"] == 2:
             extra = a[:len(a) - ns]
+        elif p["n"] == 3:
+            extra = a[1:len(a) - (ns - 1)]
         else:
             extra = a[ns:]
         return {"args": [gb.proj_val(x) for x in extra], "choices": gb.proj_chm(tr.get_choices(), e["addrs"]),
@@ -164,14 +166,15 @@ class Runner:
         from genjax._src.core.generative.requests import EmptyRequest, Regenerate
         from genjax._src.generative_functions.static import StaticRequest
         addressed = {}
-        sites = [s["addr"] for s in p["sites"]]
+        sites0 = [s["addr"] for s in p["sites"]]
+        sites = list(reversed(sites0)) if rq.get("_rev") else sites0      # the request dict need not be in program order
         cons = rq["cons"]
         for s in sites:
             ix = [j for j, c in enumerate(cons) if c["p"][:len(s)] == s]
             if ix:
                 sub = [dict(cons[j], p=cons[j]["p"][len(s):]) for j in ix]
                 addressed[gb.addr_py(s)] = Update(gb.build_cons(sub, [vals[j] for j in ix]))
-        extra = sites[rq["idx"] % len(sites)]
+        extra = sites0[rq["idx"] % len(sites0)]
         if gb.addr_py(extra) not in addressed:
             addressed[gb.addr_py(extra)] = EmptyRequest() if rq["idx"] >= 2 else \
                 Regenerate(gb.build_sel(rq["sel"])(gb.addr_py(extra)))
@@ -236,8 +239,12 @@ class Runner:
             stored = tuple(gb.val_to_py(v) for v in p["x"])
             ns = len(stored)
 
-            def full(a):          # the underlying function's arguments
-                return (tuple(a) + stored) if p["n"] == 2 else (stored + tuple(a))
+            def full(a):          # the underlying function's arguments (see CloArgs in spec/GFI.tla)
+                if p["n"] == 2:
+                    return tuple(a) + stored
+                if p["n"] == 3:
+                    return stored[:1] + tuple(a) + stored[1:]
+                return stored + tuple(a)
         form = 1 if (ev["tid"] % 3 == 1 and op in ("generate", "update")) else 0
         ev["consform"] = form
         masked = any(c["f"] in ("T", "F") for c in cons)
@@ -325,9 +332,9 @@ class Runner:
             ev["extra"] = self.static_extra(rq, p)
         idx = jnp.array(rq.get("idx", 0))
         rkey = [op, rq.get("sub", ""), struct, rq["sel"] if op in ("regenerate", "index", "static") else None,
-                rq.get("idx", 0) if op == "static" else None, tags]
+                [rq.get("idx", 0), ev["tid"] % 2] if op == "static" else None, tags]
 
-        rq = dict(rq, _form=form)
+        rq = dict(rq, _form=form, _rev=(ev["tid"] % 2 == 1))
 
         def mk_edit(rq_, ):
             def f(k, t, v, fl, i, a):
